@@ -167,22 +167,30 @@ impl DailyLogsUpdate {
             ",
         )?;
 
+        //the rows to process are read before any of them is updated:
+        //SQLite does not define which rows a running SELECT returns once its table is modified
+        #[allow(clippy::type_complexity)]
+        let mut log_rows: Vec<(Uid, String, i64, bool, Option<Vec<u8>>, Option<Vec<u8>>)> =
+            Vec::new();
         let mut rows = daily_log_stmt.query([])?;
+        while let Some(row) = rows.next()? {
+            log_rows.push((
+                row.get(0)?,
+                row.get(1)?,
+                row.get(2)?,
+                row.get(3)?,
+                row.get(4)?,
+                row.get(5)?,
+            ));
+        }
+        drop(rows);
 
         let mut previous_room: Uid = [0; 16];
         let mut previous_entity: String = "-".to_string();
         let mut previous_hash: Option<Vec<u8>> = None;
         let mut previous_history: Option<Vec<u8>> = None;
 
-        while let Some(row) = rows.next()? {
-            let room: Uid = row.get(0)?;
-            let entity: String = row.get(1)?;
-            let date: i64 = row.get(2)?;
-            let need_recompute: bool = row.get(3)?;
-
-            let daily_hash: Option<Vec<u8>> = row.get(4)?;
-            let history_hash: Option<Vec<u8>> = row.get(5)?;
-
+        for (room, entity, date, need_recompute, daily_hash, history_hash) in log_rows {
             if !need_recompute {
                 if previous_room.eq(&room) && previous_entity.eq(&entity) {
                     if let Some(previous) = &previous_history {
